@@ -338,7 +338,7 @@ impl Campaign for LoopCampaign {
       acc.fault("os_read_eio_from_nth_read_syscall_under_real_driver", s.os_sysread_fault);
       acc.fault("os_read_eio_at_nth_read_syscall_only_transient", s.os_sysread_once);
       acc.fault("os_write_eagain_at_nth_write_syscall", s.os_syswrite_fault[0]); acc.fault("os_write_eio_at_nth_write_syscall", s.os_syswrite_fault[1]); acc.fault("os_write_enospc_at_nth_write_syscall", s.os_syswrite_fault[2]); acc.fault("os_write_eintr_at_nth_write_syscall", s.os_syswrite_fault[3]);
-      acc.probe_n("failed_write_left_partial_frame_on_device", s.syswrite_partial_frames); acc.probe_n("failed_write_retried_by_writer_and_delivered_once", s.syswrite_retried_ok);
+      acc.count("busy_answered_from_an_earlier_eagain_with_no_read_since_the_event_was_written", s.busy_from_remembered_eagain); acc.probe_n("failed_write_left_partial_frame_on_device", s.syswrite_partial_frames); acc.probe_n("failed_write_retried_by_writer_and_delivered_once", s.syswrite_retried_ok);
       acc.fault("os_poll_ebadf_under_real_driver", s.os_poll_fault[0]); acc.fault("os_poll_einval_under_real_driver", s.os_poll_fault[1]); acc.fault("os_poll_efault_under_real_driver", s.os_poll_fault[2]);
       acc.probe_n("real_driver_polls_cross_checked", s.real_polls_compared); acc.fault("device_order_flipped", s.order_flipped); acc.fault("arrival_during_drain", s.arrival_during_drain); acc.fault("backoff_sleep", s.backoff_sleeps);
       acc.probe_n("wakeup_with_two_or_more_events", s.multi_event_wakeups); acc.probe_n("both_devices_ready_in_one_wakeup", s.both_devices_ready); acc.probe_n("wakeup_with_sixteen_or_more_events", s.max_events_one_wakeup);
